@@ -89,9 +89,11 @@ def _coverage(ctx, trace, n_shapes):
     hk_in_range_refused = None
     planned = 0
     repeats = 0
+    walks = 0
     for line in open(trace):
         e = json.loads(line)
         repeats += e["ev"] == "compute" and e.get("kind") == "repeat"
+        walks += e["ev"] == "compute" and e.get("kind") == "walk"
         planned += e["ev"] == "set" and e.get("route") == "plan"
         c[(e["ev"], e.get("alg", e.get("hash", "")))] += 1
         if e["ev"] == "hkdf" and e["hash"] in DIGEST and not e["ok"] and not e["panic"] and 10 <= e["n"] <= 255 * DIGEST[e["hash"]]:
@@ -100,6 +102,8 @@ def _coverage(ctx, trace, n_shapes):
             mx = 16 if e["alg"] == "CMAC" else DIGEST[e["hash"]]
             if not e["err"] and not e["panic"] and len(e["outs"]) != mx + 1:
                 raise vlib.Infra("C15: sweep does not cover 0..max")
+    if walks == 0:
+        raise vlib.Infra("C15: no PRF object walked through the input-length classes in both directions")
     if repeats == 0:
         raise vlib.Infra("C15: no computation repeated after buffer reuse / scribbling")
     if planned != n_shapes:
@@ -135,7 +139,9 @@ def run(ctx):
         "Wycheproof inputs. Every event judged by TLC against PRF.tla / PRFSet.tla / HKDF.tla")
     ctx.cov["buffers"] = ("every input handed to Tink (constructor keys/salts, PRF input, HKDF key/salt/info) lives in a driver-owned "
                           "reused buffer scribbled over after every constructor and call; inputs are logged from pristine copies, "
-                          "outputs copied after the scribble; the earliest inputs of every PRF are recomputed at the end (kind=repeat)")
+                          "outputs copied after the scribble; the earliest inputs of every PRF are recomputed at the end (kind=repeat) "
+                          "and every PRF object is walked through the input-length classes growing, shrinking to empty and growing "
+                          "again (kind=walk)")
     ctx.assumptions += ["HMAC/SHA and the AES block are the JDK's (independent of Go's standard library)",
                         "'all inputs' is covered by length and content classes, not exhaustively",
                         "for outputs longer than 256 bytes the driver logs '=' when the repeated call returned identical bytes"]
